@@ -132,6 +132,10 @@ func runShard(bin string, spec *propSpec, ph phase, tier string, seed int64, sha
 	args := []string{"-prop", spec.ID, "-tier", tier, "-seed", strconv.FormatInt(seed, 10), "-shard", strconv.Itoa(shard),
 		"-nshards", strconv.Itoa(nshards), "-out", outFile, "-caselog", logFile, "-phase", ph.Name}
 	cmd := exec.Command(bin, args...)
+	if !ph.Race {
+		// address-space cap (the race detector needs a huge shadow mapping, so not there)
+		cmd = exec.Command("bash", append([]string{"-c", "ulimit -v 12000000; exec \"$0\" \"$@\"", bin}, args...)...)
+	}
 	cmd.Dir = workDir
 	ef, _ := os.Create(errFile)
 	cmd.Stdout = ef
@@ -368,6 +372,7 @@ func main() {
 		phase string
 	}
 	var inconclusive []string
+	var harnessFailures []string
 	knownSeen := map[string]Violation{}
 	sort.Slice(outcomes, func(i, j int) bool {
 		if outcomes[i].phase != outcomes[j].phase {
@@ -378,6 +383,9 @@ func main() {
 	for _, o := range outcomes {
 		if o.timedOut {
 			inconclusive = append(inconclusive, fmt.Sprintf("phase %s shard %d: wall-clock watchdog fired after %v at case idx %d (not a verdict)", o.phase, o.shard, timeout, o.lastIdx))
+		} else if o.crashed && !strings.Contains(o.stderr, "github.com/bobertlo/gmars.") {
+			// the worker died without any gmars frame on the failing stack: a defect of the harness, not a verdict
+			harnessFailures = append(harnessFailures, fmt.Sprintf("phase %s shard %d died at case idx %d (exit %d) with no gmars frame on the stack: %s", o.phase, o.shard, o.lastIdx, o.exit, oneLine(o.stderr)))
 		} else if o.crashed {
 			cs, _ := json.Marshal(map[string]interface{}{"last_logged_case_idx": o.lastIdx, "exit": o.exit, "stderr": o.stderr})
 			violations = append(violations, struct {
@@ -562,6 +570,15 @@ func main() {
 			os.RemoveAll(workDir)
 		}
 		os.Exit(1)
+	}
+	if len(harnessFailures) > 0 {
+		for _, h := range harnessFailures {
+			fmt.Printf("HARNESS-FAILURE: property=%s %s\n", id, h)
+		}
+		if !keepWork {
+			os.RemoveAll(workDir)
+		}
+		os.Exit(2)
 	}
 	floor := spec.Floor[tier]
 	if len(merged.Samples) == 0 || distinct < floor || distinct < 2 {
